@@ -29,35 +29,61 @@ theorem inv_init (foreign : Bool) (n : Nat) : Inv (init foreign n) := inv_init' 
 theorem inv_step {s s' : Sys} (h : Inv s) (a : Step) (hs : step s a = some s') : Inv s' :=
   inv_step' h a hs
 
-/-- Induction over any interleaving. -/
+/-- Induction over any interleaving (including moves of the environment at
+quiescent points). -/
 theorem inv_reachable {foreign : Bool} {n : Nat} {s : Sys} (h : Reachable foreign n s) :
-    Inv s ∧ s.depth.length = n ∧ s.orig = (if foreign then some Entry.foreign else none) := by
+    Inv s ∧ s.depth.length = n := by
   induction h with
-  | init => exact ⟨inv_init' _ _, by simp [init], by simp [init]⟩
+  | init => exact ⟨inv_init' _ _, by simp [init]⟩
   | step a _ hs ih =>
-    obtain ⟨hl, ho⟩ := step_len a hs
-    exact ⟨inv_step' ih.1 a hs, by rw [hl, ih.2.1], by rw [ho, ih.2.2]⟩
+    obtain ⟨hl, _⟩ := step_len a hs
+    exact ⟨inv_step' ih.1 a hs, by rw [hl, ih.2]⟩
+
+/-- Only the environment's own move changes what "the table before the library
+touched it" means; no step of the library does. -/
+theorem orig_only_external {s s' : Sys} (a : Step) (hs : step s a = some s')
+    (ha : ∀ f, a ≠ Step.external f) : s'.orig = s.orig := (step_len a hs).2 ha
 
 /-- Whenever no copy is in progress the dispatch table holds exactly what it held
-before the library was used, and the bookkeeping is reset. -/
+before the library was used (`s.orig`: the initial content, or what another library
+registered at a later quiescent point), and the bookkeeping is reset. -/
 theorem quiescent_restored {foreign : Bool} {n : Nat} {s : Sys} (h : Reachable foreign n s)
     (hq : s.quiescent) :
-    s.table = (if foreign then some Entry.foreign else none) ∧ s.patched = false ∧ s.refcount = 0 := by
-  obtain ⟨hi, _, ho⟩ := inv_reachable h
+    s.table = s.orig ∧ s.orig ≠ some Entry.ours ∧ s.patched = false ∧ s.refcount = 0 := by
+  obtain ⟨hi, _⟩ := inv_reachable h
   have hz : s.refcount = 0 := by
     rw [hi.rc, sum_eq_zero_of_all s.depth hq]; rfl
   have hp : s.patched = false := by
     cases hp : s.patched with
     | false => rfl
     | true => have := hi.patchedPos hp; omega
-  exact ⟨by rw [hi.unpatched hp, ho], hp, hz⟩
+  exact ⟨hi.unpatched hp, hi.origOk, hp, hz⟩
+
+/-- Without environment moves `orig` is the initial content. -/
+theorem orig_initial {foreign : Bool} {n : Nat} {s : Sys} (as : List Step)
+    (hr : run (init foreign n) as = some s) (hne : ∀ a ∈ as, ∀ f, a ≠ Step.external f) :
+    s.orig = (if foreign then some Entry.foreign else none) := by
+  have key : ∀ (as : List Step) (s0 : Sys), run s0 as = some s →
+      (∀ a ∈ as, ∀ f, a ≠ Step.external f) → s.orig = s0.orig := by
+    intro as
+    induction as with
+    | nil => intro s0 hr _; simp [run] at hr; rw [hr]
+    | cons a as ih =>
+      intro s0 hr hne
+      simp only [run] at hr
+      split at hr
+      · cases hr
+      · rename_i s1 hs
+        rw [ih s1 hr (fun b hb => hne b (List.mem_cons_of_mem _ hb)),
+          (step_len a hs).2 (hne a (List.mem_cons_self))]
+  rw [key as _ hr hne]; simp [init]
 
 /-- Every thread inside a protected block always finds a reducer for modules,
 under every interleaving; and no thread has ever seen a failure. -/
 theorem copies_succeed {foreign : Bool} {n : Nat} {s : Sys} (h : Reachable foreign n s)
     (t : Nat) (ht : 0 < s.depthOf t) :
     s.table.isSome = true ∧ step s (.copyModule t) = some s ∧ ∀ t', s.failedOf t' = false := by
-  obtain ⟨hi, _, _⟩ := inv_reachable h
+  obtain ⟨hi, _⟩ := inv_reachable h
   obtain ⟨hc, hs⟩ := inv_copyStep hi ht
   exact ⟨hs, by simp [step, ht, hc], hi.noFail⟩
 
@@ -73,7 +99,7 @@ theorem abort_safe {foreign : Bool} {n : Nat} {s : Sys} (h : Reachable foreign n
     (t : Nat) (ht : 0 < s.depthOf t) :
     ∃ s', step s (.raise t) = some s' ∧ Reachable foreign n s' ∧ Inv s' ∧ s'.depthOf t = 0
       ∧ ∀ t', t' ≠ t → s'.depthOf t' = s.depthOf t' := by
-  obtain ⟨hi, _, _⟩ := inv_reachable h
+  obtain ⟨hi, _⟩ := inv_reachable h
   obtain ⟨a, b, c, _, _⟩ := inv_unwind hi t (s.depthOf t) (Nat.le_refl _)
   have hs : step s (.raise t) = some (unwind s t (s.depthOf t)) := by simp [step, ht]
   exact ⟨_, hs, Reachable.step _ h hs, a, by rw [b]; omega, c⟩
@@ -105,44 +131,94 @@ exception, e.g. from `__post_copy__`, left the operation). -/
 theorem protect_restores (v : Val) (t : Nat) (s : Sys) (h : Inv s) (ht : t < s.depth.length) :
     Post t s (execSeq t (protectI v) s) := exec_protect v t s h ht
 
-/-- After any history of copying operations (nested, aborted or not) the table is
-exactly what it was before the library was used. -/
-theorem history_restored (foreign : Bool) (vs : List Val) :
-    let s := execHistory 0 vs (init foreign 1)
-    s.table = (if foreign then some Entry.foreign else none) ∧ s.patched = false
+/-- A bare `copy.deepcopy(v)` of a value whose modules all sit inside spec instances
+(containers of instances, to any depth), by thread `t`, from any state satisfying the
+invariant: same guarantees. -/
+theorem deepcopy_restores (v : Val) (hg : guardedV v = true) (t : Nat) (s : Sys) (h : Inv s)
+    (ht : t < s.depth.length) : Post t s (execSeq t (deepI v) s) :=
+  exec_bal0 (bal0_deepI v hg) t s h ht
+
+theorem execHistory_protect (t : Nat) (v : Val) (r : List HistOp) (s : Sys) :
+    execHistory t (.protect v :: r) s = execHistory t r (execSeq t (protectI v) s).1 := rfl
+theorem execHistory_deepcopy (t : Nat) (v : Val) (r : List HistOp) (s : Sys) :
+    execHistory t (.deepcopy v :: r) s
+      = execHistory t r (execSeq t (if guardedV v then deepI v else []) s).1 := rfl
+theorem execHistory_external (t : Nat) (f : Bool) (r : List HistOp) (s : Sys) :
+    execHistory t (.external f :: r) s
+      = execHistory t r (if s.idle then externalStep s f else s) := rfl
+
+/-- After any history of copying operations (nested, aborted or not; with other
+libraries changing their own registration in between) the table is exactly what the
+environment last put there — initially what it held before the library was used. -/
+theorem history_restored (foreign : Bool) (h : List HistOp) :
+    let s := execHistory 0 h (init foreign 1)
+    s.table = expectedOrig (if foreign then some Entry.foreign else none) h ∧ s.patched = false
       ∧ s.refcount = 0 ∧ s.failedOf 0 = false := by
   intro s
-  have key : ∀ (vs : List Val) (s0 : Sys), Inv s0 → s0.depth.length = 1 → s0.depthOf 0 = 0 →
-      Inv (execHistory 0 vs s0) ∧ (execHistory 0 vs s0).depth.length = 1
-        ∧ (execHistory 0 vs s0).depthOf 0 = 0 ∧ (execHistory 0 vs s0).orig = s0.orig := by
-    intro vs
-    induction vs with
-    | nil => intro s0 h hl hd; exact ⟨h, hl, hd, rfl⟩
-    | cons v vs ih =>
-      intro s0 h hl hd
-      have P := exec_protect v 0 s0 h (by omega)
-      have hd' : (execSeq 0 (protectI v) s0).1.depthOf 0 = 0 := by
-        cases hb : (execSeq 0 (protectI v) s0).2 with
-        | true => rw [P.done hb, hd]
-        | false => exact P.abort hb
-      obtain ⟨a, b, c, d⟩ := ih _ P.inv (by rw [P.len, hl]) hd'
-      exact ⟨a, b, c, by show (execHistory 0 vs (execSeq 0 (protectI v) s0).1).orig = _; rw [d, P.orig]⟩
-  obtain ⟨hi, hl, hd, ho⟩ := key vs (init foreign 1) (inv_init' _ _) (by simp [init]) (by simp [init, Sys.depthOf])
-  have hq : ∀ t, (execHistory 0 vs (init foreign 1)).depthOf t = 0 := by
-    intro t
+  have allq : ∀ s0 : Sys, s0.depth.length = 1 → s0.depthOf 0 = 0 → ∀ t, s0.depthOf t = 0 := by
+    intro s0 hl hd t
     cases t with
     | zero => exact hd
     | succ t =>
-      have : (execHistory 0 vs (init foreign 1)).depth.length ≤ t + 1 := by omega
+      have : s0.depth.length ≤ t + 1 := by omega
       simp [Sys.depthOf, List.getD_eq_getElem?_getD, List.getElem?_eq_none this]
-  have hz : (execHistory 0 vs (init foreign 1)).refcount = 0 := by
+  have key : ∀ (h : List HistOp) (s0 : Sys), Inv s0 → s0.depth.length = 1 → s0.depthOf 0 = 0 →
+      Inv (execHistory 0 h s0) ∧ (execHistory 0 h s0).depth.length = 1
+        ∧ (execHistory 0 h s0).depthOf 0 = 0 ∧ (execHistory 0 h s0).orig = expectedOrig s0.orig h := by
+    intro h
+    induction h with
+    | nil => intro s0 hi hl hd; exact ⟨hi, hl, hd, rfl⟩
+    | cons op r ih =>
+      intro s0 hi hl hd
+      have seqCase : ∀ p : List Instr, Post 0 s0 (execSeq 0 p s0) →
+          Inv (execHistory 0 r (execSeq 0 p s0).1) ∧ (execHistory 0 r (execSeq 0 p s0).1).depth.length = 1
+          ∧ (execHistory 0 r (execSeq 0 p s0).1).depthOf 0 = 0
+          ∧ (execHistory 0 r (execSeq 0 p s0).1).orig = expectedOrig s0.orig r := by
+        intro p P
+        have hd' : (execSeq 0 p s0).1.depthOf 0 = 0 := by
+          cases hb : (execSeq 0 p s0).2 with
+          | true => rw [P.done hb, hd]
+          | false => exact P.abort hb
+        obtain ⟨a, b, c, d⟩ := ih _ P.inv (by rw [P.len, hl]) hd'
+        exact ⟨a, b, c, by rw [d, P.orig]⟩
+      cases op with
+      | protect v =>
+        rw [execHistory_protect]
+        exact seqCase _ (exec_protect v 0 s0 hi (by omega))
+      | deepcopy v =>
+        rw [execHistory_deepcopy]
+        show _ ∧ _ ∧ _ ∧ _ = expectedOrig s0.orig r
+        by_cases hg : guardedV v = true
+        · rw [if_pos hg]
+          exact seqCase _ (exec_bal0 (bal0_deepI v hg) 0 s0 hi (by omega))
+        · rw [if_neg hg]
+          exact seqCase [] ⟨hi, rfl, rfl, fun _ _ => rfl, fun _ => rfl, by simp [execSeq]⟩
+      | external f =>
+        have hidle : s0.idle = true := by
+          unfold Sys.idle
+          rw [List.all_eq_true]
+          intro x hx
+          obtain ⟨i, hi', rfl⟩ := List.getElem_of_mem hx
+          have := allq s0 hl hd i
+          simp [Sys.depthOf, List.getD_eq_getElem?_getD, hi'] at this
+          simp [this]
+        have hs : step s0 (.external f) = some (externalStep s0 f) := by simp [step, hidle]
+        have hi1 := inv_step' hi _ hs
+        rw [execHistory_external, hidle]
+        simp only [if_true]
+        show _ ∧ _ ∧ _ ∧ _ = expectedOrig (if f then some Entry.foreign else none) r
+        obtain ⟨a, b, c, d⟩ := ih (externalStep s0 f) hi1 hl hd
+        exact ⟨a, b, c, by rw [d]; rfl⟩
+  obtain ⟨hi, hl, hd, ho⟩ := key h (init foreign 1) (inv_init' _ _) (by simp [init]) (by simp [init, Sys.depthOf])
+  have hq := allq _ hl hd
+  have hz : (execHistory 0 h (init foreign 1)).refcount = 0 := by
     rw [hi.rc, sum_eq_zero_of_all _ hq]; rfl
-  have hp : (execHistory 0 vs (init foreign 1)).patched = false := by
-    cases hp : (execHistory 0 vs (init foreign 1)).patched with
+  have hp : (execHistory 0 h (init foreign 1)).patched = false := by
+    cases hp : (execHistory 0 h (init foreign 1)).patched with
     | false => rfl
     | true => have := hi.patchedPos hp; omega
   refine ⟨?_, hp, hz, hi.noFail 0⟩
-  show (execHistory 0 vs (init foreign 1)).table = _
+  show (execHistory 0 h (init foreign 1)).table = _
   rw [hi.unpatched hp, ho]; simp [init]
 
 /-! ## the code before the `fix:` commits violates the property (`decide`d witnesses) -/
@@ -179,8 +255,8 @@ example : ∃ s, Reachable false 2 s ∧ s.depthOf 0 = 2 ∧ s.depthOf 1 = 1 ∧
   ⟨_, run_reachable Reachable.init [.enter 0, .enter 1, .enter 0, .copyModule 1] rfl, by decide⟩
 
 /-- a reachable quiescent state after real activity, foreign entry kept -/
-example : ∃ s, Reachable true 2 s ∧ s.quiescent ∧ s.table = some Entry.foreign :=
-  ⟨_, run_reachable Reachable.init [.enter 0, .enter 1, .copyModule 0, .raise 0, .exit 1] rfl,
+example : ∃ s, Reachable false 2 s ∧ s.quiescent ∧ s.table = some Entry.foreign :=
+  ⟨_, run_reachable Reachable.init [.enter 0, .exit 0, .external true, .enter 0, .enter 1, .copyModule 0, .raise 0, .exit 1] rfl,
     by intro t; match t with | 0 => rfl | 1 => rfl | (t + 2) => rfl, by decide⟩
 
 /-- a value whose copy nests protected blocks to depth 3 and whose `__post_copy__` raises -/
